@@ -81,7 +81,11 @@ def draw_kwargs(rng):
         return {}
     if u < 0.93:
         return {"prominence": rng.choice([0.01, 0.1, 0.5, 1.0])}
-    return rng.choice([{"width": 2}, {"width": 3}, {"distance": 3}, {"height": 2.0}])
+    if u < 0.95:
+        return rng.choice([{"width": 2}, {"width": 3}, {"distance": 3}, {"height": 2.0}])
+    # scipy takes (min, max) pairs for these options; a pair is a nested mutable value
+    return rng.choice([{"height": [rng.choice([0.0, 1.0]), rng.choice([2.0, 4.0, None])]},
+                       {"prominence": [rng.choice([0.01, 0.1]), rng.choice([0.5, 2.0, None])]}])
 
 
 def _kind_for(prop, rng):
@@ -178,6 +182,10 @@ def generate(seed, prop):
         world["zeros"] = zs
     if prop == "C12" and rng.random() < 0.15:
         world["bare"] = True          # results built directly from arrays, without the meta entries process() would add
+    if prop == "C12" and kind == "azimuthal" and rng.random() < 0.12:
+        # the container is given the meta of the results it is made of (each carries the station's entries, and the label
+        # of how IT was processed)
+        world["az_meta"] = "member"
     if prop == "C13":
         from . import hvsrobj_td as TD
         world["records"] = TD.draw_records_world(rng, len(curves[0]))
@@ -239,6 +247,8 @@ def generate(seed, prop):
     n_plots = 0
     last_range = None
     last_alias = False
+    last_ralias, last_rkwargs = False, None
+    last_kw = None
     for _ in range(n_ops):
         name = rng.choices(names, weights)[0]
         if name == "plot":
@@ -276,9 +286,31 @@ def generate(seed, prop):
                 # biased schedule: a sweep over the options with one dict edited in place and an unchanged range
                 if o.get("kw_alias") and last_alias and last_range is not None and rng.random() < 0.6:
                     o["range"] = list(last_range)
+                    if isinstance(last_kw, dict) and any(isinstance(v_, list) for v_ in last_kw.values()):
+                        # the same option again, its (min, max) pair edited in place
+                        k_ = next(k for k, v_ in last_kw.items() if isinstance(v_, list))
+                        o["kwargs"] = {k_: [last_kw[k_][0], rng.choice([x for x in (0.5, 2.0, 4.0, None) if x != last_kw[k_][1]])]}
+                last_kw = copy.deepcopy(o.get("kwargs"))
                 last_alias = bool(o.get("kw_alias"))
+                if o.get("r_alias") and last_ralias and rng.random() < 0.6:
+                    # ... and a sweep over the range with one list edited in place and the very same explicit options
+                    o["rtype"], o["kwargs"], o["kw_alias"] = "list", copy.deepcopy(last_rkwargs if last_rkwargs is not None else {}), False
+                last_ralias = bool(o.get("r_alias")) and o.get("rtype") == "list"
+                last_rkwargs = copy.deepcopy(o.get("kwargs"))
             last_range = list(o["range"])
         ops.append(o)
+        if name == "update_peaks" and isinstance(o.get("kwargs"), dict) and rng.random() < 0.7 and \
+                any(isinstance(v_, list) for v_ in o["kwargs"].values()):
+            # biased schedule: a sweep over the upper limit of a (min, max) option - the caller keeps ONE options dict and
+            # edits the pair in place; the range stays
+            o["kw_alias"] = True
+            k_ = next(k for k, v_ in o["kwargs"].items() if isinstance(v_, list))
+            for _ in range(rng.randint(1, 2)):
+                prev = ops[-1]["kwargs"][k_]
+                ops.append({"op": "update_peaks", "range": list(o["range"]), "rnum": o.get("rnum", "float"),
+                            "rtype": o.get("rtype", "tuple"), "kw_alias": True, "fault": None,
+                            "kwargs": {k_: [prev[0], rng.choice([x for x in (0.5, 2.0, 4.0, None) if x != prev[1]])]}})
+            last_alias, last_kw = True, copy.deepcopy(ops[-1]["kwargs"])
         if name == "update_peaks" and not plain_kwargs(o.get("kwargs")) and rng.random() < 0.5 and len(f) >= 8:
             # biased schedule: the same (non-default) peak options again on a range nested in the one just searched
             lo_, hi_ = o["range"]
@@ -345,6 +377,9 @@ def draw_op(rng, name, f, kind, curves, azimuths, fault_rate=0.0):
                 "rtype": rng.choice(["tuple", "tuple", "list"]), "kwargs": draw_kwargs(rng),
                 # the caller keeps ONE options dict, edits it in place and hands it in again (a parameter sweep)
                 "kw_alias": rng.random() < 0.3,
+                # the caller keeps ONE range list (read from a configuration, say), hands it in, and afterwards writes the
+                # next range of its sweep into that same list ("r_edit"); the update that follows hands the list in again
+                "r_alias": rng.random() < 0.35, "r_edit": draw_range(rng, f) if rng.random() < 0.6 else None,
                 # fault injection: the k-th inner peak search of the update fails (an allocation failure, say); the caller
                 # then simply issues the same call again
                 "fault": {"kind": "raise_in_search", "at": rng.randrange(0, 14)} if rng.random() < 0.07 else None}
@@ -495,8 +530,12 @@ def build_world(world):
         hs = [H.HvsrTraditional(st.f, a, meta={**pm("traditional"), "source of azimuth": i})
               for i, a in enumerate(st.amps)]
         st.src_members = hs            # the caller keeps the objects it built the container from
-        st.objs["az"] = H.HvsrAzimuthal(hs, st.azimuths,
-                                        meta={**st.meta0, **pm("azimuthal")})
+        if world.get("az_meta") == "member":
+            hs[0].meta.update(st.meta0)
+            st.objs["az"] = H.HvsrAzimuthal(hs, st.azimuths, meta=hs[0].meta)
+        else:
+            st.objs["az"] = H.HvsrAzimuthal(hs, st.azimuths,
+                                            meta={**st.meta0, **pm("azimuthal")})
     if k in ("diffuse", "multi"):
         st.objs["diff"] = H.HvsrDiffuseField(st.f, st.amps[0][0],
                                              meta={**st.meta0, **pm("diffuse_field")})
@@ -728,13 +767,27 @@ def apply_op(ctx, st, op, prop):
         st.member = {}
     if name == "update_peaks":
         r = range_arg(op)
+        if op.get("r_alias") and isinstance(r, list):
+            if not hasattr(st, "caller_range"):
+                st.caller_range = []
+            st.caller_range[:] = r
+            r = st.caller_range
+            ctx.probe("caller_reuses_range_list")
         alias = None
         if op.get("kw_alias"):
             if not hasattr(st, "caller_kwargs"):
                 st.caller_kwargs = {}
             alias = st.caller_kwargs
-            alias.clear()
-            alias.update(copy.deepcopy(op["kwargs"] or {}))
+            new_kw = copy.deepcopy(op["kwargs"] or {})
+            for k_ in list(alias):
+                if k_ not in new_kw:
+                    del alias[k_]
+            for k_, v_ in new_kw.items():
+                if isinstance(v_, list) and isinstance(alias.get(k_), list) and len(alias[k_]) == len(v_):
+                    alias[k_][:] = v_                  # a (min, max) pair is edited in place as well
+                    ctx.probe("caller_edits_nested_option_in_place")
+                else:
+                    alias[k_] = v_
             ctx.probe("caller_reuses_kwargs_dict")
         fault = op.get("fault") if prop in ("C08", "C05", "C11", "C06") else None
         for attempt in ((fault, None) if fault else (None,)):
@@ -753,6 +806,9 @@ def apply_op(ctx, st, op, prop):
                                 inj.__exit__()
                     except InjectedSearchFailure:
                         info["exc"] = "InjectedSearchFailure"      # the caller repeats the call below, faults have stopped
+        if op.get("r_alias") and isinstance(r, list) and op.get("r_edit") is not None:
+            r[:] = list(op["r_edit"])                  # the caller's list now holds the NEXT range; none has been applied yet
+            ctx.probe("caller_edits_range_list_after_the_call")
         st.range_changed = tuple(op["range"]) != tuple(st.cur_range)
         st.cur_range, st.cur_kwargs = tuple(op["range"]), copy.deepcopy(op["kwargs"])
         ctx.state_changes += 1
@@ -1790,7 +1846,7 @@ EVIDENCE = {
     "C12": {"components": _COMPONENTS, "assumptions": [
         "excluded: duplicated adjacent azimuth values (the file keys curves by the printed azimuth), members whose frequency vectors "
         "differ within np.allclose, members updated on their own right before a write (probe members_out_of_step_at_write), "
-        "file names with a compression suffix; the entry 'processing_method' may be added to the meta by the writer",
+        "file names with a compression suffix; the entry 'processing_method' (which tells the reader the class to build) is the writer's and is not compared",
         "azimuth values are distinct and have a plain decimal representation (the file format keys curves by the printed azimuth)",
         "a torn file left by a failed or crashed write is probe-counted, not judged (the property speaks of completed writes)",
         "under an injected write/read fault the call must raise, leave the object unchanged, and one retry must succeed"]},
